@@ -18,9 +18,11 @@ import subprocess
 import sys
 
 ROOT = os.path.dirname(os.path.dirname(os.path.abspath(__file__)))
-WT = "/tmp/vm_wt"
-VM = "/tmp/vm"
-TARGET = "/tmp/vm_target"
+# VM_SLOT selects an independent set of scratch directories, so that several runs can go on in parallel
+SLOT = os.environ.get("VM_SLOT", "")
+WT = "/tmp/vm_wt" + SLOT
+VM = "/tmp/vm" + SLOT
+TARGET = "/tmp/vm_target" + SLOT
 
 
 def sh(cmd, **kw):
@@ -46,7 +48,7 @@ def main():
     a = ap.parse_args()
     # one mutant run at a time: the scratch directories are shared
     import fcntl
-    lock = open("/tmp/vm.lock", "w")
+    lock = open("/tmp/vm%s.lock" % SLOT, "w")
     fcntl.flock(lock, fcntl.LOCK_EX)
     if a.clean:
         cleanup(True)
